@@ -8,3 +8,4 @@ CONSTANTS
   SchemaLossy = FALSE
   WithFail = TRUE
   Salts = {1, 2, 3}
+  Pres = {"none", "hop"}
